@@ -1449,11 +1449,30 @@ class ForAll(BinaryOperator):
 
     @property
     @lru_cache(maxsize=None)
-    def condition_unique_variable_ids(self) -> List[int]:
+    def condition_free_variables(self) -> List[SymbolicExpression]:
         # Literals are not variables of the condition: whether a result binds them depends on which operands were
         # evaluated, so they must not take part in comparing results across values of the universal variable.
-        return [v.id_ for v in self.condition._unique_variables_.difference(self.left._unique_variables_)
+        return [v.value for v in self.condition._unique_variables_.difference(self.left._unique_variables_)
                 if not isinstance(v.value, Literal)]
+
+    @property
+    @lru_cache(maxsize=None)
+    def condition_unique_variable_ids(self) -> List[int]:
+        return [v._id_ for v in self.condition_free_variables]
+
+    def _bind_unbound_variables_(self, result: Dict[int, HashedValue], variables: List[SymbolicExpression]) \
+            -> Iterable[Dict[int, HashedValue]]:
+        """
+        A result of the condition that leaves one of its variables unbound (e.g. a variable of an operand of `or` that
+        was not evaluated) holds for every value of that variable: bind it, such that the results for the different
+        values of the universal variable are compared by the same variables.
+        """
+        for variable in variables:
+            if variable._id_ not in result:
+                for value in variable._evaluate__(copy(result)):
+                    yield from self._bind_unbound_variables_({**result, **value}, variables)
+                return
+        yield result
 
     def _evaluate__(self, sources: Optional[Dict[int, HashedValue]] = None,
                     yield_when_false: bool = False) -> Iterable[Dict[int, HashedValue]]:
@@ -1472,9 +1491,10 @@ class ForAll(BinaryOperator):
             for condition_val in self.condition._evaluate__(ctx):
                 if self.condition._is_false_:
                     continue
-                # Keep only the non-universal variables from the condition bindings
-                filtered = {k: v for k, v in condition_val.items() if k in self.condition_unique_variable_ids}
-                current.append(filtered)
+                for bound_val in self._bind_unbound_variables_(condition_val, self.condition_free_variables):
+                    # Keep only the non-universal variables from the condition bindings
+                    filtered = {k: v for k, v in bound_val.items() if k in self.condition_unique_variable_ids}
+                    current.append(filtered)
 
             # If the condition yields no satisfying bindings for this universal value, the universal fails
             if not current:
